@@ -466,6 +466,55 @@ pub fn compact_witnesses(mut dag: Dag) -> Dag {
     dag
 }
 
+/// Give every reference to a node that contains a witness or disconnect node its own copy, so
+/// that no witness/disconnect node is reachable along two paths (neither serialisation can
+/// express that: the bit encoding writes such a node twice, the text parser refuses it).
+/// Other sharing is kept. Witness table entries are duplicated along with the nodes.
+pub fn unshare_wd(dag: &Dag) -> Dag {
+    let n = dag.len();
+    let mut has = vec![false; n];
+    for i in 0..n {
+        let (a, b) = dag.nodes[i].children();
+        has[i] = matches!(dag.nodes[i], Op::Witness(_) | Op::Disconnect(..)) || a.map(|c| has[c]).unwrap_or(false) || b.map(|c| has[c]).unwrap_or(false);
+    }
+    fn copy(dag: &Dag, has: &[bool], i: usize, memo: &mut HashMap<usize, usize>, out: &mut Dag) -> usize {
+        if !has[i] {
+            if let Some(j) = memo.get(&i) {
+                return *j;
+            }
+        }
+        let (a, b) = dag.nodes[i].children();
+        let na = a.map(|c| copy(dag, has, c, memo, out));
+        let nb = b.map(|c| copy(dag, has, c, memo, out));
+        let op = match &dag.nodes[i] {
+            Op::InjL(_) => Op::InjL(na.unwrap()),
+            Op::InjR(_) => Op::InjR(na.unwrap()),
+            Op::Take(_) => Op::Take(na.unwrap()),
+            Op::Drop(_) => Op::Drop(na.unwrap()),
+            Op::AssertL(_, h) => Op::AssertL(na.unwrap(), *h),
+            Op::AssertR(h, _) => Op::AssertR(*h, na.unwrap()),
+            Op::Comp(..) => Op::Comp(na.unwrap(), nb.unwrap()),
+            Op::Case(..) => Op::Case(na.unwrap(), nb.unwrap()),
+            Op::Pair(..) => Op::Pair(na.unwrap(), nb.unwrap()),
+            Op::Disconnect(..) => Op::Disconnect(na.unwrap(), nb),
+            Op::Witness(Some(w)) => {
+                out.witness.push(dag.witness[*w].clone());
+                Op::Witness(Some(out.witness.len() - 1))
+            }
+            other => other.clone(),
+        };
+        let j = out.push(op);
+        if !has[i] {
+            memo.insert(i, j);
+        }
+        j
+    }
+    let mut out = Dag::default();
+    let mut memo = HashMap::new();
+    copy(dag, &has, dag.root(), &mut memo, &mut out);
+    out
+}
+
 /// Replace every witness value by its projection onto the inferred (principal) target type.
 pub fn retype_witnesses(dag: &mut Dag, typing: &ast::Typing) {
     for (i, op) in dag.nodes.clone().iter().enumerate() {
